@@ -288,7 +288,8 @@ def r08_2(chk, sht):
                loop.lo == P.const(0) and "sqrt(len(" in loop.hi.key(), node=e.node, found=f"range({loop.lo},{loop.hi})")
     # real branch
     pat = [e for e in ev.events if e.kind == "assign" and e.name == "pattern"]
-    chk.need(pat, f"{q}: real-branch 'pattern' not found")
+    if not pat:
+        return r08_2_real_loops(chk, ev, coef, q)
     pterm = pat[0].value
     pa = pterm.as_atom()
     # which layout?  A length that is both a square and a triangular number (36, 1225, ...) is ambiguous, so the decision
@@ -363,6 +364,95 @@ def r08_2(chk, sht):
             okd = d == 2 * deg + 1
     chk.ob("R08.2", SHT, q, "real branch: the sum for degree l is divided by 2l+1", okd,
            found=str(ret[0].value)[:200] if ret else None)
+
+
+def r08_2_real_loops(chk, ev, coef, q):
+    """The real branch written with explicit loops instead of the degree pattern and np.add.at:
+
+        spectrum += |c[:L+1]|^2                                   (m = 0: position l is degree l)
+        for m in 1..L:  spectrum[m:] += 2 |c[L+1:]|^2 [off : off + (L+1-m)]     off = sum_{k<m} (L+1-k)  (the m-th packed block)
+        for l in 0..L:  spectrum[l] /= 2l+1
+
+    Position L+1 + off + (l - m) of the packed vector must be the packed index l + m(2L+1-m)/2 of (l, m)."""
+    real_events = [e for e in ev.events if e.guards and e.guards[0][1] and "nplm()" in e.guards[0][0].key() or
+                   (e.guards and "nplm()" in e.guards[0][0].key())]
+    chk.need(real_events, f"{q}: real-branch 'pattern' not found and no loop form under a layout test either")
+    g = real_events[0].guards
+    gk, ga = g[0][0].key(), g[0][0].as_atom()
+    lens = {f"{coef}.size", f"len({coef})", f"{coef}.shape[0]"}
+    own = bool(ga and ga[0] in ("eq", "ne") and ((ga[1].key() in lens and ga[2].key() in ("self.nplm()", "self.nlm()")) or
+                                                 (ga[2].key() in lens and ga[1].key() in ("self.nplm()", "self.nlm()"))))
+    real_pol = None
+    if own:
+        real_pol = (ga[0] == "eq") == ("self.nplm()" in gk)
+    chk.ob("R08.2", SHT, q, "the half (real) layout is chosen exactly when the length equals this transform's nplm()", own,
+           node=real_events[0].node, fingerprint="layout-test", expected=f"{coef}.size == self.nplm()", found=str(g[0][0])[:160])
+    real = [e for e in ev.events if e.guards and e.guards[0][0].key() == gk and e.guards[0][1] == (real_pol if real_pol is not None else True)]
+    sq = lambda sl: P.atom(("call", P.name("abs"), (P.atom(("sub", coef, (sl,))),))) ** 2
+    none = P.atom(("const", None))
+    # the spectrum array and L
+    spec = [e.value for e in real if e.kind == "assign" and e.value is not None and e.value.as_atom() and e.value.as_atom()[0] == "obj"
+            and call_name(e.value.as_atom()[3].as_atom() or ()) in ("numpy.zeros",)]
+    chk.need(len(spec) >= 1, f"{q}: spectrum array of the real branch not found")
+    S0 = spec[0]
+    Lp1 = S0.as_atom()[3].as_atom()[2][0]
+    weights, okm0, okblock, okdiv = [], False, False, False
+    # m = 0
+    for e in real:
+        if e.kind == "assign" and e.extra.get("aug") == "Add" and e.extra.get("old") is not None and e.extra["old"].key() == S0.key():
+            d = e.extra["delta"]
+            base = sq(P.atom(("slice", none, Lp1, none)))
+            try:
+                w = (d / base).const_value()
+            except Exception:      # noqa: BLE001
+                w = None
+            if w is not None:
+                weights.append(("m=0", w))
+                okm0 = True
+    chk.ob("R08.2", SHT, q, "real branch: degrees and |c|^2 are taken from the same slice of the packed vector", okm0,
+           fingerprint="real-slice:m=0", found="spectrum += w |c[:L+1]|^2 not found" if not okm0 else None)
+    # m > 0 blocks
+    for e in real:
+        if e.kind == "aug" and e.op in ("Add", "+") and len(e.loops) == 1 and e.loops[0].kind == "range":
+            lp = e.loops[0]
+            t = e.target.as_atom()
+            if not (t and t[0] == "sub" and S0.key() in t[1].key() and len(t[2]) == 1):
+                continue
+            ts = t[2][0].as_atom()
+            va = e.value.as_atom()
+            if not (ts and ts[0] == "slice" and va and va[0] == "sub" and len(va[2]) == 1):
+                continue
+            vs = va[2][0].as_atom()
+            if not (vs and vs[0] == "slice"):
+                continue
+            m = lp.index
+            L = Lp1 - 1
+            base = sq(P.atom(("slice", Lp1, none, none)))
+            try:
+                w = (va[1] / base).const_value()
+            except Exception:      # noqa: BLE001
+                w = None
+            off, end = vs[1], vs[2]
+            want_off = m * (2 * L + 1 - m) / 2 + m - Lp1
+            okblock = bool(w is not None and ts[1] == m and ts[2].key() == "None" and lp.lo == P.const(1) and lp.hi == Lp1
+                           and (off - want_off).is_zero() and (end - off - (Lp1 - m)).is_zero())
+            if w is not None:
+                weights.append(("m>0", w))
+    chk.ob("R08.2", SHT, q, "real branch: pattern lists the degree of every packed position in m-major order "
+                             "(concatenate(arange(m, L+1) for m in range(L+1)))", okblock, fingerprint="real-blocks",
+           expected="block m of the packed vector, positions L+1 + sum_{k<m}(L+1-k) + (l-m), is added onto degrees l = m..L")
+    chk.ob("R08.2", SHT, q, "real branch: degrees and |c|^2 are taken from the same slice of the packed vector", okblock,
+           fingerprint="real-slice:m>0")
+    chk.ob("R08.2", SHT, q, "real branch: the m=0 coefficients weigh 1, the m>0 coefficients weigh 2",
+           sorted(weights, key=str) == sorted([("m=0", Fraction(1)), ("m>0", Fraction(2))], key=str),
+           expected="[('m=0', 1), ('m>0', 2)]", found=str(weights))
+    for e in real:
+        if e.kind == "aug" and e.op in ("Div", "/", "TrueDiv") and len(e.loops) == 1 and e.loops[0].kind == "range":
+            lp = e.loops[0]
+            t = e.target.as_atom()
+            okdiv = bool(t and t[0] == "sub" and S0.key() in t[1].key() and len(t[2]) == 1 and t[2][0] == lp.index and lp.lo == P.const(0)
+                         and lp.hi == Lp1 and e.value == 2 * lp.index + 1)
+    chk.ob("R08.2", SHT, q, "real branch: the sum for degree l is divided by 2l+1", okdiv)
 
 
 def r08_3(chk, sd, inv):
